@@ -706,4 +706,44 @@ theorem Full_scan_opsX_of (hS : ∀ cfg, Y_startLex_tag cfg) (hA : ∀ cfg, Y_au
       · cases hm
       · cases hs
 
+/-! ## the start-tag token up to `EqT` -/
+
+theorem invGet_bump_same (inv : List ((Nat × HId) × Nat)) (k : Nat × HId) :
+    invGet (invBump inv k) k = invGet inv k + 1 := by
+  induction inv with
+  | nil => simp [invBump, invGet, List.find?]
+  | cons e rest ih =>
+    simp only [invBump]
+    split
+    · rename_i he
+      simp [invGet, List.find?, he]
+    · rename_i he
+      have he' : (e.1 == k) = false := by simpa using he
+      unfold invGet at ih ⊢
+      simp only [List.find?, he']
+      exact ih
+
+theorem runClosures_congr {τ : Type} (scripts : HId → Scripts ElementOp) (who : HId → Who) (see : τ → Seen)
+    (apply : τ → List ElementOp → τ) (src : Range) (hs : List HId) (s1 s2 : St) (u : τ) (h : EqT s1 s2) :
+    (runClosures scripts kElement who see apply src hs s2 u).2 = (runClosures scripts kElement who see apply src hs s1 u).2 ∧
+    EqT (runClosures scripts kElement who see apply src hs s1 u).1 (runClosures scripts kElement who see apply src hs s2 u).1 := by
+  induction hs generalizing s1 s2 u with
+  | nil => exact ⟨rfl, h⟩
+  | cons h0 hs ih =>
+    simp only [runClosures]
+    rw [h.inv h0]
+    have h' : EqT { s1 with inv := invBump s1.inv (kElement, h0), log := ⟨who h0, src, see u⟩ :: s1.log }
+        { s2 with inv := invBump s2.inv (kElement, h0), log := ⟨who h0, src, see u⟩ :: s2.log } := by
+      refine ⟨h.disp, h.vm, h.descs, h.pending, h.payloads, h.ord, h.fault, fun x => ?_⟩
+      show invGet (invBump s2.inv (kElement, h0)) (kElement, x) = invGet (invBump s1.inv (kElement, h0)) (kElement, x)
+      by_cases hx : x = h0
+      · subst hx
+        rw [invGet_bump_same, invGet_bump_same, h.inv]
+      · rw [invGet_bump_ne _ _ _ (by intro e; exact hx (by simpa using congrArg Prod.snd e)),
+          invGet_bump_ne _ _ _ (by intro e; exact hx (by simpa using congrArg Prod.snd e))]
+        exact h.inv x
+    split
+    · exact ⟨rfl, h'⟩
+    · exact ih _ _ _ h'
+
 end LolHtml.Thm.Full
